@@ -552,7 +552,7 @@ class Interpolation(object):
                 else:
                     x = x - y / yp
                     # Check if x is within limits
-                    if x < xmin or x > xmax:
+                    if x < xl or x > xh:
                         # Switch to linear interpolation
                         x = (xl * yh - xh * yl) / (yh - yl)
                         y = self.__call__(x)
